@@ -84,7 +84,21 @@ out = {
 from sa.drift import skeleton  # noqa: E402
 from sa.model import Repo  # noqa: E402
 
-out["skeletons"] = {q: skeleton(f.node) for q, f in sorted(Repo(str(root)).functions.items())}
+_repo = Repo(str(root))
+out["skeletons"] = {q: skeleton(f.node) for q, f in sorted(_repo.functions.items())}
+# arguments the pinned tree passes by keyword: (caller, callee name, keyword); keywords not listed are turned back into positional
+# arguments where that keeps the evaluation order
+from sa.model import walk_shallow  # noqa: E402
+
+ck = set()
+for q, f in _repo.functions.items():
+    for c in walk_shallow(f.node):
+        if isinstance(c, ast.Call) and c.keywords:
+            cname = c.func.attr if isinstance(c.func, ast.Attribute) else c.func.id if isinstance(c.func, ast.Name) else None
+            for k in c.keywords:
+                if cname and k.arg:
+                    ck.add((q, cname, k.arg))
+out["call_keywords"] = sorted(ck)
 old = json.loads(P.read_text())
 if set(old.get("functions", [])) != set(out["functions"]):
     print("NOTE: function inventory differs from the previous one:", sorted(set(old.get("functions", [])) ^ set(out["functions"]))[:10])
